@@ -75,8 +75,9 @@ class _Boom(Exception):
 
 # --------------------------------------------------------------------------- strategies
 
-# NB: st.one_of() de-duplicates identical branches, so weights are expressed through an integer draw.
-_onlog = st.integers(0, 5).flatmap(
+# NB: st.one_of() de-duplicates identical branches, so weights are expressed through a uniform index
+# draw (st.sampled_from; st.integers is biased towards small values).
+_onlog = st.sampled_from(range(6)).flatmap(
     lambda i: st.none()
     if i
     else st.builds(lambda at, p: {"at": at, "persist": p}, st.integers(0, 3), st.booleans())
@@ -123,7 +124,7 @@ _rawstream = st.builds(
                      "missing_col", "wrong_type", "renamed_col"]),
     st.sampled_from(["close", "send", "cancel"]),
 )
-_op = st.integers(0, 10).flatmap(
+_op = st.sampled_from(range(11)).flatmap(
     lambda i: _unary if i == 0 else _raw if i == 1 else _rawstream if i == 2 else _stream
 )
 cases = st.builds(
